@@ -31,6 +31,7 @@ REGEX_SITES = [
     ("assert", re.compile(r"\b(debug_)?assert(_eq|_ne)?!\(")),
     ("unimplemented", re.compile(r"\b(unimplemented|todo)!\(")),
     ("unsafe", re.compile(r"\bunsafe\s*\{")),
+    ("env_args", re.compile(r"\benv::args\(\)")),      # panics on an argument that is not valid Unicode (args_os does not)
 ]
 FN_RE = re.compile(r"^\s*(?:pub(?:\([^)]*\))?\s+)?(?:default\s+)?(?:const\s+)?(?:async\s+)?(?:unsafe\s+)?(?:extern\s+\"[^\"]*\"\s+)?fn\s+(\w+)")
 
